@@ -392,6 +392,11 @@ def strictness(repo, run, rule):
             raise AnalysisError('maybe_keep does not end in `return node.ayns.has_priority_over(other_node)` (returns %s)' % (q.ret.text[:60] if q.ret is not None else None))
         n += 1
         recv, arg, ie = a
+        looked = [e for e in q.events if e.kind == 'call' and e.attr in ('get_first_not_missing_node', 'get_node') and e.recv is not None and e.recv.text in ('other.ayns', 'other')
+                  and e.result is not None and e.result.text == arg]
+        if not looked:
+            run.violation(rule, mk, q.ret.text[:100], 'the older entry is not compared against the node found at its own (relative) path in the newer tree by one lookup on `other` (it is compared against %s): which node protects / deletes an entry then depends on names elsewhere in the tree' % arg[:60])
+            continue
         if recv != node:
             run.violation(rule, mk, q.ret.text[:100], 'the protecting comparison must ask whether the *older* node outranks the newer one')
         elif ie:
@@ -603,3 +608,30 @@ def function_node_decisions(repo, run, rule):
         raise AnalysisError('FunctionNode.on_merge_impl: survivor calls not found (%d)' % n)
     for v in sorted(verdicts):
         (run.ok if v[0] == 'ok' else run.violation)(rule, fi, 'FunctionNode merge: survivor', v[1])
+
+
+def counterpart_lookup(repo, run, rule):
+    """locality of the pruning predicates: each one compares the entry it is asked about with the node found by ONE lookup of that
+    entry's own path in the opposite tree (maybe_keep: `other`; list pre-filter: `self`) - not with a node obtained any other way"""
+    for host, recv_names, what in (('ComposedNode.ayns.on_merge_impl', ('other.ayns', 'other'), 'newer'), ('ConfigList.ayns.on_merge_impl', ('self.ayns', 'self'), 'older')):
+        fi, evs, cb, cpaths = filter_callback(repo, host, None)
+        ps = callback_params(cb)
+        n = 0
+        for q in cpaths:
+            if q.status != 'return' or q.ret is None or q.ret.const is True:
+                continue
+            a = _prio_atom(q.ret.text)
+            if a is None:
+                continue
+            n += 1
+            arg = a[1]
+            looked = [e for e in q.events if e.kind == 'call' and e.attr in ('get_first_not_missing_node', 'get_node') and e.recv is not None and e.recv.text in recv_names
+                      and e.result is not None and e.result.text == arg]
+            if not looked:
+                run.violation(rule, cb, q.ret.text[:100], 'the entry is not compared against the node found at its own path in the %s tree by one lookup (it is compared against %s): the outcome then depends on names elsewhere in the tree' % (what, arg[:60]))
+            elif not looked[0].args or ps[0] not in looked[0].args[0].text:
+                run.violation(rule, cb, looked[0].callee[:100], 'the counterpart is looked up at %s, which does not derive from the path of the entry being decided' % (looked[0].args[0].text[:50] if looked[0].args else None))
+            else:
+                run.ok(rule, cb, looked[0].callee[:100], 'counterpart = node at the entry\'s own path in the %s tree' % what)
+        if not n:
+            raise AnalysisError('%s: priority comparison of the pruning predicate not found' % host)
